@@ -72,7 +72,7 @@ package connmgr
 //@ ensures has(s.peers, p) && result == s.peers[p] && result != nil && result.id == p
 //@ ensures old(has(s.peers, p)) ==> result == old(s.peers[p])
 //@ ensures !old(has(s.peers, p)) ==> fresh(result) && result.temp && result.value == 0 && result.firstSeen == now &&
-//@         result.tags != nil && fresh(result.tags) && result.conns != nil && fresh(result.conns) &&
+//@         result.tags != nil && fresh(result.tags) && result.conns != nil && fresh(result.conns) && result.decaying != nil && fresh(result.decaying) &&
 //@         (forall t string :: !has(result.tags, t)) && (forall c network.Conn :: !has(result.conns, c))
 //@ ensures wfIds() && wfConns()
 //@ modifies contents(s.peers)
@@ -331,4 +331,37 @@ package connmgr
 //@ requires wfIds() && mapTypes() && wfConns()
 //@ callsite trim#0 requires count(cm) >= cm.cfg.highWater
 //@ loop 0 invariant wfIds() && mapTypes() && wfConns()
+//@ noframe
+
+// ---------------------------------------------------------------------------
+// decaying tags: every step of the decayer changes the peer's total by exactly the change of that tag's
+// contribution (its value while the peer holds it, 0 once removed), so "each peer's tag total equals what the
+// tag operations delivered" is preserved by decay rounds and tag closure as well.
+// (A-MAPTYPE for the fourth map type: map[*decayingTag]*DecayingValue is never the same object as a peers map)
+//@ pred mapTypesD() = (forall x *peerInfo, s *segment :: x.decaying == nil || x.decaying != s.peers) &&
+//@     (forall x *peerInfo, y *peerInfo :: x.decaying == nil || (x.decaying != y.conns && x.decaying != y.tags))
+//@ pred decOf(cm *BasicConnMgr, p peer.ID, t *decayingTag) = ite(tracked(cm, p) && has(pinfo(cm, p).decaying, t), pinfo(cm, p).decaying[t].Value, 0)
+//@ func (d *decayer) process
+//@ prop C14
+//@ requires wfIds() && mapTypes() && wfConns() && mapTypesD()
+//@ loop 0 invariant wfIds()
+//@ loop 0 invariant mapTypes()
+//@ loop 0 invariant wfConns()
+//@ loop 0 invariant mapTypesD()
+//@ loop 1 invariant wfIds() && mapTypes() && wfConns() && mapTypesD()
+//@ loop 2 invariant wfIds() && mapTypes() && wfConns() && mapTypesD()
+//@ loop 3 invariant wfIds() && mapTypes() && wfConns() && mapTypesD()
+//@ loop 4 invariant wfIds() && mapTypes() && wfConns() && mapTypesD()
+//@ loop 5 invariant wfIds() && mapTypes() && wfConns() && mapTypesD()
+//@ loop 6 invariant wfIds() && mapTypes() && wfConns() && mapTypesD()
+//@ loop 7 invariant wfIds() && mapTypes() && wfConns() && mapTypesD()
+//@ loop 4 iteration p.value - prev(p.value) == ite(has(p.decaying, tag), v.Value, 0) - prev(v.Value)
+//@ loop 7 iteration p.value - prev(p.value) == 0 - prev(ite(has(p.decaying, t), p.decaying[t].Value, 0))
+//@ loop 7 iteration !has(p.decaying, t)
+//@ loop 0 iteration recvd(d.bumpTagCh) == prev(recvd(d.bumpTagCh)) + 1 ==>
+//@         valOf(d.mgr, bmp.peer) - prev(valOf(d.mgr, cur(bmp.peer))) == decOf(d.mgr, bmp.peer, bmp.tag) - prev(decOf(d.mgr, cur(bmp.peer), cur(bmp.tag)))
+//@ loop 0 iteration recvd(d.removeTagCh) == prev(recvd(d.removeTagCh)) + 1 ==>
+//@         valOf(d.mgr, recvval(d.removeTagCh).peer) - prev(valOf(d.mgr, cur(recvval(d.removeTagCh).peer))) ==
+//@         0 - prev(decOf(d.mgr, cur(recvval(d.removeTagCh).peer), cur(recvval(d.removeTagCh).tag)))
+//@ loop 0 iteration recvd(d.removeTagCh) == prev(recvd(d.removeTagCh)) + 1 ==> decOf(d.mgr, recvval(d.removeTagCh).peer, recvval(d.removeTagCh).tag) == 0
 //@ noframe
